@@ -96,7 +96,8 @@ def run(c):
         if machine == "health":
             g["outs"] = [{"success": consts["success"], "transitioning": consts["transitioning"],
                           "error": consts["error"]}[o] for o in g["outs"]]
-        gpath = os.path.join(util.BUILD, "c20_%s_graph.json" % machine)
+        os.makedirs(util.RUNDIR, exist_ok=True)
+        gpath = os.path.join(util.RUNDIR, "c20_%s_graph.json" % machine)
         util.write_json(gpath, g)
         r = harness(bindir, [dict({"kind": "cover", "machine": machine, "graph": gpath}, **extra)], timeout=900)[0]
         util.log("cover %s: %s" % (machine, {k: v for k, v in r.items() if k != "mismatches"}))
